@@ -16,6 +16,7 @@ from ..workloads import specs as W
 from ._spec_common import eval_tree, run_trees
 
 PROP = "C06"
+ANCHORS = ['dep_logic.specifiers.range:RangeSpecifier._simplified_form', 'dep_logic.specifiers.range:RangeSpecifier.__str__', 'dep_logic.specifiers.union:UnionSpecifier._simplified_form', 'dep_logic.specifiers.union:UnionSpecifier.__str__', 'dep_logic.specifiers:_from_pkg_specifier', 'dep_logic.specifiers:parse_version_specifier']
 RULE = ("(1) expression trees as in C01: every node value is rendered and re-parsed; (2) systematic stratum around "
         "the rendering shortcuts: [lo, hi) with lo of release length 1-4 and hi = lo bumped at each position with "
         "every zero padding, near misses (difference 2, non-zero tail, inclusive max, exclusive min), pre/post/dev "
